@@ -157,7 +157,21 @@ def part_replay(run, rng, ncases):
         if should != (crit != "threshold"):
             run.violation("CompressConfig:bonddim_should_set", dict(criteria=crit, got=bool(should)))
         if per_bond:
-            cfg.max_dims = rng.integers(1, 7, size=length).astype(int)
+            if rng.random() < 0.35:
+                # the same explicit limit on every bond, different from the scalar the config was created with
+                k = int(rng.choice([x for x in range(1, 8) if x != M]))
+                cfg.max_dims = np.full(length, k, dtype=int)
+                run.count("set_bonddim:explicit-uniform-table")
+            else:
+                cfg.max_dims = rng.integers(1, 7, size=length).astype(int)
+            # explicit per-bond limits are the caller's: a later set_bonddim (what compress() calls) must leave them alone
+            before = np.array(cfg.max_dims).copy()
+            if cfg.bonddim_should_set:
+                cfg.set_bonddim(length)
+            if cfg.max_dims is None or len(cfg.max_dims) != length or np.any(np.asarray(cfg.max_dims) != before):
+                run.violation("CompressConfig:explicit-max_dims-overwritten", dict(length=length, M=M, before=before.tolist(),
+                                                                                  got=L.jsonable(cfg.max_dims)))
+                continue
         elif should:
             cfg.set_bonddim(length)
             if cfg.max_dims is None or len(cfg.max_dims) != length or np.any(np.asarray(cfg.max_dims) != M):
@@ -523,6 +537,20 @@ def part_chain(run, rng, ncases, quick, t_end):
         fix, thrl = limits_from(cfg, n + 1)
         replay = dict(kind=kind, state=desc, config=cfg, input_bond_dims=[int(x) for x in mps.bond_dims],
                       qnidx=int(mps.qnidx), dense_input=L.jsonable(psi0) if psi0.size <= 64 else None)
+        mixed = False
+        if kind == "mps" and n >= 3 and rng.random() < 0.15:
+            # mixed-canonical input (orthogonality centre at an interior site): the truncating sweep must either be refused
+            # or still obey the bounds -- it may not start away from the real centre and call the result a truncation
+            try:
+                k_stop = int(rng.integers(1, n - 1))
+                work.canonicalise(stop_idx=k_stop)
+                mixed = True
+                replay["mixed_canonical_centre"] = k_stop
+                run.count("chain:mixed-canonical-input")
+            except Exception as e:  # noqa
+                run.count(f"chain:mixed-canonical-prep-rejected:{type(e).__name__}")
+                work = mps.copy()
+                apply_config(work, cfg)
         log = []
         err = None
         ret_s = rng.random() < 0.3
@@ -538,6 +566,9 @@ def part_chain(run, rng, ncases, quick, t_end):
         n_eval += 1
         run.count(f"chain:{kind}:{desc['kind']}:{cfg_tag(cfg)}")
         run.count("chain:sweep:" + ("to_right" if mps.to_right else "to_left"))
+        if err is not None and mixed and isinstance(err, AssertionError):
+            run.count("chain:mixed-canonical-refused")
+            continue
         if err is not None:
             if d10:
                 run.count("chain:D10-exception")
